@@ -1,20 +1,22 @@
+\* several endpoints per participant, larger: receivers 2 (two endpoints: entities 2 and 12) and 3; tokens may go astray
+\* between all three receiving entities; all receiver lists
 SPECIFICATION Spec
 CONSTANTS
-  Senders = {1, 3}
-  Receivers = {2}
-  Levels = {"payload", "submsg", "msg"}
+  Senders = {1}
+  Receivers = {2, 3}
+  Levels = {"submsg"}
   Kinds = {"gmac", "gcm"}
   OAs = {TRUE, FALSE}
-  K256s = {TRUE, FALSE}
+  K256s = {TRUE}
   Dirs = {"w2r", "r2w"}
-  Others = {"same", "none", "diff"}
+  Others = {"same"}
   Astray = TRUE
-  Eps2 = {}
+  Eps2 = {2}
   LooseList = FALSE
-  GenS = 0
+  GenS = 4
   LooseKid = FALSE
-  GenK = 4
-  GenC = 1
+  GenK = 40
+  GenC = 6
 VIEW View
 INVARIANT Inv_TamperedNeverDecodes
 INVARIANT Inv_NoKeyNoData
